@@ -106,6 +106,7 @@ class B:
         self.i = 0
         self.kinds = set()
         self.n = 0
+        self.owner = None  # dialect owning the dialect-specific types / upsert used by this construct (compiled there only)
         md = self.md = sa.MetaData()
         self.t1 = sa.Table(
             "t1",
@@ -194,6 +195,14 @@ class B:
                 if isinstance(c.type, sa.JSON):
                     return c
         return sa.type_coerce({"a": {"b": 1}, "k": 2}, sa.JSON)
+
+    def dialect_type(self):
+        dts = dialect_types()
+        if self.owner is None:
+            self.owner = sorted(dts)[self.pick(len(dts))]
+        lst = dts[self.owner]
+        self.k("dialect_type")
+        return lst[self.pick(len(lst))]()
 
     def int_col(self):
         cs = self._cols(int)
@@ -289,12 +298,8 @@ class B:
         if c == 22:
             self.k("label")
             return self.int_expr(d + 1).label(self.name("l"))
-        self.k("cast", "dialect_type")
-        dts = dialect_types()
-        typ = dts[self.pick(len(dts))]()
-        if getattr(typ, "length", None) == "max":
-            self.k("mssql_max_length")
-        return sa.cast(self.any_expr(d + 1), typ)
+        self.k("cast")
+        return sa.cast(self.any_expr(d + 1), self.dialect_type())
 
     def str_expr(self, d=0):
         sa = self.sa
@@ -645,8 +650,12 @@ class B:
             stmt = stmt.order_by(*[self.order_elem(d) for _ in range(1 + self.pick(2))])
         if o & 8:
             self.k("limit")
-            lo = self.pick(7)
-            if lo == 0:
+            lo = self.pick(9)
+            if lo == 7:
+                stmt = stmt.limit(sa.literal(2) + 1)
+            elif lo == 8:
+                stmt = stmt.limit(sa.literal_column("3")).offset(sa.bindparam(self.name("off"), 1))
+            elif lo == 0:
                 stmt = stmt.limit(self.pick(5))
             elif lo == 1:
                 stmt = stmt.limit(3).offset(self.pick(4))
@@ -748,6 +757,11 @@ class B:
         t = [self.t1, self.t2, self.t3][self.pick(3)]
         fam = self.pick(5)
         ins_fn = sa.insert
+        fam_owner = {1: "postgresql", 2: "sqlite", 3: "mysql"}.get(fam)
+        if fam_owner is not None and self.owner not in (None, fam_owner):
+            fam = 0
+        elif fam_owner is not None:
+            self.owner = fam_owner
         if fam == 1:
             from sqlalchemy.dialects.postgresql import insert as ins_fn
 
@@ -949,7 +963,6 @@ class B:
             lambda: sa.PickleType(),
             lambda: sa.String(),
         ]
-        dts = dialect_types()
         ncol = 1 + self.pick(4)
         for i in range(ncol):
             kw = {}
@@ -964,10 +977,7 @@ class B:
             if o & 8:
                 kw["unique" if self.flag() else "index"] = True
             if self.pick(3) == 0:
-                self.k("dialect_type")
-                typ = dts[self.pick(len(dts))]()
-                if getattr(typ, "length", None) == "max":
-                    self.k("mssql_max_length")
+                typ = self.dialect_type()
             else:
                 typ = types[self.pick(len(types))]()
             cols.append(sa.Column(f"c{i}", typ, **kw))
@@ -1178,12 +1188,16 @@ class B:
             stmt = stmt.distinct()
         if c & 16:
             self.k("for_update")
-            stmt = stmt.with_for_update(of=A if self.flag() else None)
+            if self.flag():
+                self.k("for_update_of_table")
+                stmt = stmt.with_for_update(of=A)
+            else:
+                stmt = stmt.with_for_update()
         return stmt
 
     def statement(self):
-        fam = self.pick(11)
-        if fam == 10:
+        fam = self.pick(12)
+        if fam >= 10:
             return "orm", self.orm()
         if fam in (0, 1, 2):
             self.k("select")
@@ -1207,25 +1221,13 @@ def dialect_types():
     import sqlalchemy as sa
     from sqlalchemy.dialects import mssql, mysql, oracle, postgresql as pg, sqlite
 
-    return [
-        lambda: pg.INET(), lambda: pg.CIDR(), lambda: pg.CITEXT(), lambda: pg.UUID(), lambda: pg.BIT(8), lambda: pg.BIT(varying=True), lambda: pg.MACADDR(), lambda: pg.MONEY(), lambda: pg.OID(),
-        lambda: pg.REGCLASS(), lambda: pg.TSVECTOR(), lambda: pg.TSQUERY(), lambda: pg.DOUBLE_PRECISION(), lambda: pg.TIMESTAMP(timezone=True, precision=3), lambda: pg.TIME(precision=2),
-        lambda: pg.BYTEA(), lambda: pg.INTERVAL(fields="YEAR TO MONTH"), lambda: pg.INTERVAL(precision=3), lambda: pg.ARRAY(sa.String, dimensions=2), lambda: pg.ENUM("a", "b", name="pe"),
-        lambda: pg.DOMAIN("dom", sa.Integer, check="VALUE > 0"), lambda: pg.HSTORE(), lambda: pg.INT4RANGE(), lambda: pg.DATERANGE(), lambda: pg.INT4MULTIRANGE(), lambda: pg.TSTZRANGE(),
-        lambda: pg.JSON(), lambda: pg.JSONB(), lambda: pg.JSONPATH(), lambda: pg.ARRAY(pg.ENUM("x", "y", name="pe2")),
-        lambda: mysql.BIT(4), lambda: mysql.ENUM("a", "b"), lambda: mysql.SET("a", "b"), lambda: mysql.TINYINT(1), lambda: mysql.MEDIUMINT(unsigned=True), lambda: mysql.YEAR(),
-        lambda: mysql.LONGTEXT(charset="utf8mb4", collation="utf8mb4_bin"), lambda: mysql.NVARCHAR(10), lambda: mysql.VARCHAR(10, national=True), lambda: mysql.DOUBLE(precision=10, scale=2, asdecimal=True),
-        lambda: mysql.DECIMAL(10, 2, unsigned=True, zerofill=True), lambda: mysql.TIME(fsp=3), lambda: mysql.DATETIME(fsp=6), lambda: mysql.TIMESTAMP(fsp=2), lambda: mysql.TINYBLOB(),
-        lambda: mysql.VARBINARY(10), lambda: mysql.JSON(), lambda: mysql.INET4(), lambda: mysql.INET6(), lambda: mysql.TEXT(100), lambda: mysql.INTEGER(display_width=4, zerofill=True),
-        lambda: mssql.TINYINT(), lambda: mssql.NVARCHAR(None), lambda: mssql.DATETIME2(precision=3), lambda: mssql.DATETIMEOFFSET(precision=2), lambda: mssql.SMALLDATETIME(), lambda: mssql.BIT(),
-        lambda: mssql.IMAGE(), lambda: mssql.ROWVERSION(), lambda: mssql.TIMESTAMP(convert_int=True), lambda: mssql.MONEY(), lambda: mssql.SMALLMONEY(), lambda: mssql.UNIQUEIDENTIFIER(as_uuid=False),
-        lambda: mssql.SQL_VARIANT(), lambda: mssql.XML(), lambda: mssql.NTEXT(), lambda: mssql.VARBINARY("max"), lambda: mssql.VARBINARY("max", filestream=True), lambda: mssql.JSON(), lambda: mssql.TIME(precision=3),
-        lambda: mssql.REAL(), lambda: mssql.DOUBLE_PRECISION(),
-        lambda: oracle.NUMBER(10, 2), lambda: oracle.NUMBER(), lambda: oracle.BFILE(), lambda: oracle.CLOB(), lambda: oracle.NCLOB(), lambda: oracle.TIMESTAMP(timezone=True), lambda: oracle.TIMESTAMP(local_timezone=True),
-        lambda: oracle.RAW(16), lambda: oracle.FLOAT(binary_precision=53), lambda: oracle.BINARY_DOUBLE(), lambda: oracle.BINARY_FLOAT(), lambda: oracle.LONG(), lambda: oracle.INTERVAL(day_precision=2, second_precision=3),
-        lambda: oracle.VARCHAR2(10), lambda: oracle.NVARCHAR2(10), lambda: oracle.ROWID(), lambda: oracle.BOOLEAN(), lambda: oracle.VECTOR(dim=3, storage_format=oracle.VectorStorageFormat.FLOAT32), lambda: oracle.JSON(),
-        lambda: sqlite.JSON(), lambda: sqlite.JSONB(), lambda: sqlite.DATETIME(truncate_microseconds=True), lambda: sqlite.DATE(storage_format="%(year)04d%(month)02d%(day)02d"), lambda: sqlite.TIME(),
-    ]
+    return {
+        "postgresql": [lambda: pg.INET(), lambda: pg.CIDR(), lambda: pg.CITEXT(), lambda: pg.UUID(), lambda: pg.BIT(8), lambda: pg.BIT(varying=True), lambda: pg.MACADDR(), lambda: pg.MONEY(), lambda: pg.OID(), lambda: pg.REGCLASS(), lambda: pg.TSVECTOR(), lambda: pg.TSQUERY(), lambda: pg.DOUBLE_PRECISION(), lambda: pg.TIMESTAMP(timezone=True, precision=3), lambda: pg.TIME(precision=2), lambda: pg.BYTEA(), lambda: pg.INTERVAL(fields="YEAR TO MONTH"), lambda: pg.INTERVAL(precision=3), lambda: pg.ARRAY(sa.String, dimensions=2), lambda: pg.ENUM("a", "b", name="pe"), lambda: pg.DOMAIN("dom", sa.Integer, check="VALUE > 0"), lambda: pg.HSTORE(), lambda: pg.INT4RANGE(), lambda: pg.DATERANGE(), lambda: pg.INT4MULTIRANGE(), lambda: pg.TSTZRANGE(), lambda: pg.JSON(), lambda: pg.JSONB(), lambda: pg.JSONPATH(), lambda: pg.ARRAY(pg.ENUM("x", "y", name="pe2"))],
+        "mysql": [lambda: mysql.BIT(4), lambda: mysql.ENUM("a", "b"), lambda: mysql.SET("a", "b"), lambda: mysql.TINYINT(1), lambda: mysql.MEDIUMINT(unsigned=True), lambda: mysql.YEAR(), lambda: mysql.LONGTEXT(charset="utf8mb4", collation="utf8mb4_bin"), lambda: mysql.NVARCHAR(10), lambda: mysql.VARCHAR(10, national=True), lambda: mysql.DOUBLE(precision=10, scale=2, asdecimal=True), lambda: mysql.DECIMAL(10, 2, unsigned=True, zerofill=True), lambda: mysql.TIME(fsp=3), lambda: mysql.DATETIME(fsp=6), lambda: mysql.TIMESTAMP(fsp=2), lambda: mysql.TINYBLOB(), lambda: mysql.VARBINARY(10), lambda: mysql.JSON(), lambda: mysql.INET4(), lambda: mysql.INET6(), lambda: mysql.TEXT(100), lambda: mysql.INTEGER(display_width=4, zerofill=True)],
+        "mssql": [lambda: mssql.TINYINT(), lambda: mssql.NVARCHAR(None), lambda: mssql.DATETIME2(precision=3), lambda: mssql.DATETIMEOFFSET(precision=2), lambda: mssql.SMALLDATETIME(), lambda: mssql.BIT(), lambda: mssql.IMAGE(), lambda: mssql.ROWVERSION(), lambda: mssql.TIMESTAMP(convert_int=True), lambda: mssql.MONEY(), lambda: mssql.SMALLMONEY(), lambda: mssql.UNIQUEIDENTIFIER(as_uuid=False), lambda: mssql.SQL_VARIANT(), lambda: mssql.XML(), lambda: mssql.NTEXT(), lambda: mssql.VARBINARY("max"), lambda: mssql.VARBINARY("max", filestream=True), lambda: mssql.JSON(), lambda: mssql.TIME(precision=3), lambda: mssql.REAL(), lambda: mssql.DOUBLE_PRECISION()],
+        "oracle": [lambda: oracle.NUMBER(10, 2), lambda: oracle.NUMBER(), lambda: oracle.BFILE(), lambda: oracle.CLOB(), lambda: oracle.NCLOB(), lambda: oracle.TIMESTAMP(timezone=True), lambda: oracle.TIMESTAMP(local_timezone=True), lambda: oracle.RAW(16), lambda: oracle.FLOAT(binary_precision=53), lambda: oracle.BINARY_DOUBLE(), lambda: oracle.BINARY_FLOAT(), lambda: oracle.LONG(), lambda: oracle.INTERVAL(day_precision=2, second_precision=3), lambda: oracle.VARCHAR2(10), lambda: oracle.NVARCHAR2(10), lambda: oracle.ROWID(), lambda: oracle.BOOLEAN(), lambda: oracle.VECTOR(dim=3, storage_format=oracle.VectorStorageFormat.FLOAT32), lambda: oracle.JSON()],
+        "sqlite": [lambda: sqlite.JSON(), lambda: sqlite.JSONB(), lambda: sqlite.DATETIME(truncate_microseconds=True), lambda: sqlite.DATE(storage_format="%(year)04d%(month)02d%(day)02d"), lambda: sqlite.TIME()],
+    }
 
 
 _ORM = {}
@@ -1277,8 +1279,9 @@ def named_construct(name):
         return "dml", sa.delete(t1).where(t1.c.id == t2.c.t1_id)
     if name == "multitable_update":
         return "dml", sa.update(t1).values(x=t2.c.y).where(t2.c.t1_id == t1.c.id)
-    if name == "sqlite_upsert":
-        return "dml", sqlite.insert(t1).values(x=1).on_conflict_do_nothing(index_elements=["id"])
+    if name == "orm_limit_for_update_of_class":
+        A = orm_family()["A"]
+        return "orm", sa.select(A).limit(2).with_for_update(of=A)
     if name == "join_textual_subquery":
         tx = sa.text("select 1 as id").columns(sa.column("id", sa.Integer)).subquery("tx")
         return "select", sa.select(t1.c.id).select_from(t1.outerjoin(tx, t1.c.id == tx.c.id))
@@ -1307,17 +1310,25 @@ def _lib_frame(exc):
     return found
 
 
+def _recursion_cycle(exc):
+    """stable classifier for a RecursionError: the sorted set of lib functions taking part in the cycle"""
+    from collections import Counter
+
+    frames = [fs for fs in traceback.extract_tb(exc.__traceback__) if fs.filename.startswith(LIB)]
+    cnt = Counter(fs.name for fs in frames)
+    names = sorted(n for n, c in cnt.items() if c >= 5 and n not in ("_compiler_dispatch", "process", "__get__"))
+    return "cycle:" + "+".join(names[:6])
+
+
 cases = st.one_of(st.lists(st.integers(0, 255), min_size=25, max_size=120), st.lists(st.integers(0, 255), max_size=40), st.lists(st.integers(0, 255), min_size=60, max_size=160))
 
 # confirmed findings kept out of the search by construction: (required kinds, variants not compiled, reason)
 EXCLUSIONS = [
     ({"delete", "multitable"}, {"sqlite", "oracle", "oracle_legacy", "oracle_nonansi"}, "multi-table DELETE on a backend without DELETE..USING raises builtin NotImplementedError (known finding)"),
     ({"update", "multitable"}, {"oracle", "oracle_legacy", "oracle_nonansi"}, "multi-table UPDATE on a backend without UPDATE..FROM raises builtin NotImplementedError (known finding)"),
-    ({"upsert_sqlite"}, {"postgresql", "postgresql_asyncpg"}, "sqlite ON CONFLICT construct compiled by the postgresql compiler: AttributeError constraint_target (known finding)"),
     ({"text", "join"}, {"oracle_nonansi"}, "text().columns().subquery() / compound-select subquery in a join under Oracle use_ansi=False: is_derived_from NotImplementedError (known finding)"),
     ({"setop", "join"}, {"oracle_nonansi"}, "text().columns().subquery() / compound-select subquery in a join under Oracle use_ansi=False: is_derived_from NotImplementedError (known finding)"),
-    ({"mssql_max_length"}, {"sqlite", "postgresql", "postgresql_asyncpg", "mysql", "mariadb", "oracle", "oracle_legacy", "oracle_nonansi"}, "mssql.VARBINARY('max') compiled on a non-MSSQL dialect: TypeError in visit_VARBINARY '%d' formatting (known finding)"),
-    ({"for_update_of_table", "limit"}, {"oracle_legacy"}, "with_for_update(of=<table>) + LIMIT/OFFSET on Oracle<12: AttributeError proxy_set in translate_select_structure (known finding)"),
+    ({"for_update_of_table", "limit"}, {"oracle_legacy"}, "with_for_update(of=<table or mapped class>) + LIMIT/OFFSET on Oracle<12: AttributeError proxy_set / RecursionError in translate_select_structure (known finding)"),
 ]
 
 
@@ -1373,6 +1384,11 @@ def check_compile(case, ctx):
         buckets = {}
         outcomes = []
         skip = set() if pinned else excluded_variants(b.kinds, ctx)
+        if b.owner is not None and not pinned:
+            # dialect-specific types / upserts are only well-formed input for the dialect that owns them
+            foreign = {v for v in VARIANTS if variant_dialect(v).name != b.owner and not (b.owner == "mysql" and variant_dialect(v).name == "mariadb")}
+            skip |= foreign
+            ctx.info("owner-restricted:" + b.owner)
         for variant in pinned_variants or VARIANTS:
             if variant in skip:
                 continue
@@ -1386,6 +1402,8 @@ def check_compile(case, ctx):
                 if fs is None:
                     raise
                 sig = f"C22/{type(e).__name__}/{os.path.basename(fs.filename)}:{fs.name}"
+                if isinstance(e, RecursionError):
+                    sig = f"C22/RecursionError/{_recursion_cycle(e)}"
                 if sig not in buckets:
                     buckets[sig] = (variant, opt, "".join(traceback.format_exception(e))[-1800:], str(e)[:300])
                 outcomes.append("INTERNAL")
@@ -1414,5 +1432,5 @@ def check_compile(case, ctx):
 
 def subs(tier):
     return [
-        Generated("compile", check_compile, strategy=cases, quick=6000, thorough=300000),
+        Generated("compile", check_compile, strategy=cases, quick=12000, thorough=300000),
     ]
